@@ -21,6 +21,14 @@ def scenarios(seed, n):
         {"name": "two-intervals", "steps": [C, S(30), C, S(RATE_MS + 30), C, S(30), C, S(30), C]},
         {"name": "reload-then-change", "steps": [C, S(RATE_MS * 2), {"t": "reload", "s": "B"}, S(30), C]},
         {"name": "hanging-hook", "hang": True, "steps": [C, S(RATE_MS + 40), C, S(30), C]},
+        # the hooks directory is unusable (world-writable: nothing there is eligible) while changes arrive - at the leading
+        # edge, inside an interval, at the trailing edge - and is repaired: later changes start the hooks again
+        {"name": "dirbad-leading", "steps": [C, S(RATE_MS * 2), {"t": "dirmode", "s": "bad"}, C, S(RATE_MS * 2), {"t": "dirmode", "s": "good"},
+                                             C, S(RATE_MS * 2), C, S(30), C]},
+        {"name": "dirbad-trailing", "steps": [C, S(20), {"t": "dirmode", "s": "bad"}, C, S(RATE_MS * 2), {"t": "dirmode", "s": "good"},
+                                              S(20), C, S(RATE_MS * 3), C]},
+        {"name": "dirbad-agent", "agent": True, "steps": [{"t": "dirmode", "s": "bad"}, C, S(RATE_MS * 3), {"t": "dirmode", "s": "good"}, C,
+                                                          S(RATE_MS * 2), C]},
     ]
     # adversarial (counterexample of the no-drain variant): new-store message and notification ready at the same time
     for i in range(10):
@@ -93,7 +101,7 @@ def validate_scenarios(ctx, scs, r, prop="C19"):
     def validate(i):
         sr = r["scenarios"][i]
         evs = events[sr["first"]:sr["last"]]
-        lines = settle([{"ev": e["ev"], "s": e["s"], "p": e["p"]} for e in evs if e["ev"] != "hexec"])
+        lines = settle([{"ev": e["ev"], "s": e["s"], "p": e["p"]} for e in evs if e["ev"] not in ("hexec", "dirmode")])
         trace = "".join(json.dumps(x, separators=(",", ":")) + "\n" for x in lines)
         return ctx.run_tlc("TraceHooks.tla", "TraceHooks.cfg", workers=1, timeout=120, name="trace-hooks-%d" % i, heap="1g",
                            defines={"trace.ndjson": trace})
@@ -103,7 +111,7 @@ def validate_scenarios(ctx, scs, r, prop="C19"):
         evs = events[sr["first"]:sr["last"]]
         if sr["blocked"]:
             ctx.violation(prop, "notify-send-blocked:" + sc["name"].split("-")[0], "a send to the hooks caller did not complete within 2 s")
-        lines = settle([{"ev": e["ev"], "s": e["s"], "p": e["p"]} for e in evs if e["ev"] != "hexec"])
+        lines = settle([{"ev": e["ev"], "s": e["s"], "p": e["p"]} for e in evs if e["ev"] not in ("hexec", "dirmode")])
         hwm, inv = None, None
         for line in open(t["outfile"]):
             m = re.match(r'<<"HWM", (\d+), (\d+)>>', line)
@@ -129,6 +137,18 @@ def validate_scenarios(ctx, scs, r, prop="C19"):
             ctx.inconclusive.append("TraceHooks did not run for %s: %s" % (sc["name"], t["errors"][:2]))
         # bursts are coalesced: real time between round i and round i+2 is at least the rate-limit interval
         runs = [e["ts"] for e in evs if e["ev"] == "hrun"]
+        # rounds that ran while the hooks directory was unusable start nothing; rounds next to a mode switch may go either way
+        usable, good_runs, any_runs, after_repair = True, 0, 0, 0
+        modes = [e for e in evs if e["ev"] == "dirmode"]
+        for e in evs:
+            if e["ev"] == "dirmode":
+                usable = e["s"] == "good"
+                after_repair = 0
+            elif e["ev"] == "hrun":
+                near = any(abs(e["ts"] - m["ts"]) < 15000 for m in modes)
+                any_runs += 1 if (usable or near) else 0
+                good_runs += 1 if (usable and not near) else 0
+                after_repair += 1 if usable else 0
         for i in range(len(runs) - 2):
             if runs[i + 2] - runs[i] < (RATE_MS - 5) * 1000:
                 ctx.violation(prop, "more-than-two-rounds-per-interval", "scenario %s: three rounds within %d ms" % (sc["name"], (runs[i + 2] - runs[i]) / 1000))
@@ -137,7 +157,14 @@ def validate_scenarios(ctx, scs, r, prop="C19"):
         logl = [x for x in sr["scriptlog"] if x]
         for name in ("10-first", "20-second"):
             mine = [x for x in logl if x.startswith(name + "|")]
-            if len(mine) != nrun:
+            if modes:
+                if not (good_runs <= len(mine) <= any_runs):
+                    ctx.violation(prop, "scripts-started-differs-from-rounds:hooks-directory-repaired", "scenario %s: %d..%d rounds with a usable "
+                                  "hooks directory but %s ran %d times" % (sc["name"], good_runs, any_runs, name, len(mine)))
+                if after_repair == 0:
+                    ctx.violation(prop, "no-round-after-hooks-directory-repaired", "scenario %s: changes after the hooks directory became "
+                                  "usable again started no round" % sc["name"])
+            elif len(mine) != nrun:
                 ctx.violation(prop, "scripts-started-differs-from-rounds", "scenario %s: %d rounds but %s ran %d times" % (sc["name"], nrun, name, len(mine)))
             for x in mine:
                 f = x.split("|")
@@ -145,7 +172,7 @@ def validate_scenarios(ctx, scs, r, prop="C19"):
                     ctx.violation(prop, "hook-arguments", x)
         stores = [e["s"] for e in evs if e["ev"] == "hrun"]
         got = [x.split("|")[2].split("/")[-1] for x in logl if x.startswith("10-first|")]
-        if sorted(got) != sorted(stores):
+        if not modes and sorted(got) != sorted(stores):
             ctx.violation(prop, "hook-environment-store", "scenario %s: rounds carried %s but scripts saw %s" % (sc["name"], stores, got))
     return nval
 
